@@ -252,7 +252,8 @@ impl<'a, 'b, 'resources, PathLocatorImpl: PathLocator>
                 )),
                 _ => Err(DarkluaError::invalid_resource_extension(path)),
             },
-            None => unreachable!("extension should be defined"),
+            // a require can resolve to a file that has no extension
+            None => Err(DarkluaError::invalid_resource_extension(path)),
         }
     }
 }
